@@ -203,3 +203,15 @@ Section ServeProofs.
     intros E Hn Hw Hu. unfold serve. rewrite feed_concat, E, framing_exact; auto. rewrite <- E. exact Hn.
   Qed.
 End ServeProofs.
+
+(* ---- a byte stream has one division into frames ---------------------------------------------- *)
+
+Lemma framing_unambiguous fs gs r s :
+  nonneg (concat fs ++ r) -> Forall wf_frame fs -> unfinished r -> Forall wf_frame gs -> unfinished s ->
+  concat fs ++ r = concat gs ++ s -> fs = gs /\ r = s.
+Proof.
+  intros Hn Hf Hr Hg Hs H.
+  pose proof (framing_exact fs r Hn Hf Hr) as A.
+  rewrite H in Hn. pose proof (framing_exact gs s Hn Hg Hs) as B.
+  rewrite H in A. rewrite A in B. injection B as -> ->. split; reflexivity.
+Qed.
